@@ -4,7 +4,8 @@ TLC: Layout.tla (Mode = "offsets"): Offsets / ElemOffsets / OffsetAfter as the i
 checks OffsetsConsistent (every start aligned for its field, offsets chain into the type's set, `_offset_` padded to the
 next field's alignment is that field's offset); Wire.tla checks that offsets are the positions the encoder really uses.
 Binding A: every state materialised; iterate_fields_with_offsets / enumerate_elements_with_offsets queried on the SAME
-object for eight base offset sets (aligned, unaligned, multi-valued, sets that collide under BitLengthSet equality);
+object for ten base offset sets (aligned, unaligned, multi-valued, sets that collide under BitLengthSet equality, two
+40-element literal sets that agree in their 16 smallest and 16 largest elements);
 `@print _offset_` at every position, `T._bit_length_`, `T._extent_` printed from a referring definition.
 """
 from __future__ import annotations
@@ -12,7 +13,8 @@ import re
 from .. import core, tlc, tlaval, dsdlio, dsdlgen
 from . import c02
 
-BASES = [{0}, {8}, {1}, {0, 4, 8}, {3, 16}, {7, 9}, {0, 64}, {0, 32, 64}]
+_BIG_A = {8 * j for j in range(40)}
+BASES = [{0}, {8}, {1}, {0, 4, 8}, {3, 16}, {7, 9}, {0, 64}, {0, 32, 64}, _BIG_A, (_BIG_A - {160, 168}) | {161, 170}]
 
 def _ints(text):
     return frozenset(int(x) for x in re.findall(r"-?\d+", text))
@@ -146,7 +148,7 @@ def many_attr_worker(arg):
 
 def run(ctx):
     ctx.rule = ("TLC enumerates composite and fixed-array types (flat: every primitive width; deep: nested to Growth levels) "
-                "with the offsets of every field / element for eight base offset sets, `_offset_` after every attribute "
+                "with the offsets of every field / element for ten base offset sets, `_offset_` after every attribute "
                 "prefix, `_bit_length_` and `_extent_`; each is materialised and the iterators (queried repeatedly on the "
                 "same object, in both orders of the bases) and the printed intrinsics are compared with the specification; half of the "
                 "composites are also placed as the request and as the response part of a service next to a partner part with the "
